@@ -347,6 +347,11 @@ package server
 // the long-lived treatment (also when the long-lived timers are already running from an earlier loss: the routes of
 // the session that came and went in between are stale without the community)
 //@   at-call drainChannel(peer.fsm.outgoingCh.Out()) requires nextStateIdle ==> called(llgrFamilies) || called(dropAdjRIBIn)
+// "after re-establishment ... routes not re-announced are withdrawn" when End-of-RIB has arrived "for every GR family":
+// a family the peer no longer lists in the Graceful Restart capability of the new session (or a new session without
+// the capability) is not a GR family any more and no End-of-RIB is owed for it - RFC 4724 4.2 has its stale routes
+// removed as soon as the session is up again. The session's source description is only built after that was looked at
+//@   at-call table.NewPeerInfo( requires called(dropStaleOfFamiliesNotRenewed)
 // "when End-of-RIB has arrived for every GR family ... routes not re-announced are withdrawn": the sweep at that point
 // covers every family of the session, not only those whose marker came in the last UPDATE
 //@   at-call peer.adjRibIn.DropStale( requires called(configuredRFlist)
